@@ -935,6 +935,82 @@ async fn scenario_c14(seed: u64, id: u64, base: &Path, r: &mut PropReport) {
         r.count("replies_survived", 1);
         r.sample(|| json!({"scenario": id, "case": case, "endpoint": if on_register { "register" } else { "add_appointment" }, "reply": bname}));
     }
+    // ---- misbehaviour proven on the retry path, then a client restart: the tower stays banned
+    'retry_path: {
+        if !plugin.alive() {
+            break 'retry_path;
+        }
+        r.eval();
+        let tower = FakeTower::start(&mut rng).await;
+        let tid = hex::encode(tower.id.to_vec());
+        let ctx = format!("scenario {id} retry-path misbehaviour");
+        if plugin.call("registertower", json!([format!("{tid}@127.0.0.1:{}", tower.port)]), 20).await.is_err() {
+            r.inconclusive += 1;
+            break 'retry_path;
+        }
+        tower.set_up(false);
+        let rev = revocation(&mut rng, 901);
+        if plugin.revoke(&rev, HOOK_TIMEOUT).await.is_err() {
+            r.inconclusive += 1;
+            break 'retry_path;
+        }
+        // wait for the retrier to give up (max_retry_time = 1 s) and idle
+        let mut idle = false;
+        for _ in 0..60 {
+            tokio::time::sleep(Duration::from_millis(100)).await;
+            if let Some((st, _)) = tower_status(&mut plugin, &tid).await {
+                if st == "unreachable" {
+                    idle = true;
+                    break;
+                }
+            }
+        }
+        if !idle {
+            r.inconclusive += 1;
+            r.note(format!("{ctx}: the retrier did not idle in 6 s"));
+            break 'retry_path;
+        }
+        tower.state.lock().unwrap().add.push_back(Beh::WrongSig);
+        tower.set_up(true);
+        let _ = plugin.call("retrytower", json!([tid]), 10).await;
+        let mut flagged = false;
+        for _ in 0..50 {
+            tokio::time::sleep(Duration::from_millis(100)).await;
+            if tower_status(&mut plugin, &tid).await.map_or(false, |(st, _)| st == "misbehaving") {
+                flagged = true;
+                break;
+            }
+        }
+        let has_proof = read_rows(&dir).as_ref().map_or(false, |x| x.proofs.contains(&tid));
+        if !flagged || !has_proof {
+            r.violation("C14:misbehaviour-not-recorded:retry-path", format!("{ctx}: after an acknowledgement signed by another key on the retry path: status misbehaving = {flagged}, proof persisted = {has_proof}"), replay.clone());
+            break 'retry_path;
+        }
+        // restart on the same data directory
+        plugin.kill().await;
+        let n0 = tower.state.lock().unwrap().log.len();
+        plugin = match Plugin::start(&dir, &opts).await {
+            Ok(p) => p,
+            Err(e) => {
+                r.violation("C14:restart-failed-after-misbehaviour", format!("{ctx}: the client did not restart: {e}"), replay.clone());
+                let _ = std::fs::remove_dir_all(&dir);
+                return;
+            }
+        };
+        tokio::time::sleep(Duration::from_millis(1500)).await;
+        let rev2 = revocation(&mut rng, 902);
+        let _ = plugin.revoke(&rev2, HOOK_TIMEOUT).await;
+        tokio::time::sleep(Duration::from_millis(1500)).await;
+        let n1 = tower.state.lock().unwrap().log.len();
+        let st = tower_status(&mut plugin, &tid).await.map(|x| x.0).unwrap_or_else(|| "?".into());
+        if n1 != n0 {
+            r.violation("C14:sends-to-misbehaving-tower:after-restart", format!("{ctx}: {} requests reached the tower after a client restart although its misbehaviour proof is on disk (status shown: {st})", n1 - n0), replay.clone());
+        } else if st != "misbehaving" {
+            r.violation("C14:misbehaving-status-lost-on-restart", format!("{ctx}: after a client restart the tower with a persisted misbehaviour proof is shown as {st}"), replay.clone());
+        }
+        r.count("misbehaviour_retry_path_restart_checked", 1);
+        r.nontrivial(fnv(format!("retry-path:{id}").as_bytes()));
+    }
     plugin.kill().await;
     let _ = std::fs::remove_dir_all(&dir);
 }
